@@ -1,29 +1,55 @@
 #!/usr/bin/env python3
-"""Run the property's check against each seeded change (applied to /repo under the exclusive lock,
-always reverted) and record who catches what in seeded/RESULTS.json.
-usage: tools/run_seeded.py [name-prefix ...]"""
-import json, os, re, subprocess, sys, time
+"""Run the property's check against seeded changes (each applied to a PRIVATE patched copy of /repo by
+tools/with_patch) and record who catches what: seeded/<name>/result.json, aggregated into
+seeded/RESULTS.json.   usage: tools/run_seeded.py [--jobs N] [name-prefix ...]"""
+import json, os, subprocess, sys, time
+from concurrent.futures import ThreadPoolExecutor
 ROOT = os.path.dirname(os.path.dirname(os.path.abspath(__file__)))
 SD = os.path.join(ROOT, "seeded")
-resf = os.path.join(SD, "RESULTS.json")
-res = json.load(open(resf)) if os.path.exists(resf) else {}
+args = sys.argv[1:]
+jobs = 1
+if args and args[0] == "--jobs":
+    jobs = int(args[1]); args = args[2:]
 manifest = json.load(open(os.path.join(ROOT, "MANIFEST.json")))
 claimed = {c["property_id"] for c in manifest["checks"]}
-for name in sorted(os.listdir(SD)):
+head = subprocess.run(["git", "-C", "/repo", "rev-parse", "--short", "HEAD"], capture_output=True, text=True).stdout.strip()
+
+def patch_for(d):
+    # a seed rebased onto the repaired tree takes precedence when /repo contains the fixes
+    p2 = os.path.join(d, "patch.onfixed.diff")
+    if os.path.exists(p2) and subprocess.run(["git", "-C", "/repo", "apply", "--check", p2], capture_output=True).returncode == 0:
+        return p2
+    return os.path.join(d, "patch.diff")
+
+def run(name):
     d = os.path.join(SD, name)
-    if not os.path.isdir(d) or (sys.argv[1:] and not any(name.startswith(p) for p in sys.argv[1:])):
-        continue
     prop = json.load(open(os.path.join(d, "meta.json")))["property"]
     if prop not in claimed:
-        print(name, ": property not claimed yet")
-        continue
+        return name, None
     t0 = time.time()
-    p = subprocess.run([os.path.join(ROOT, "tools", "with_patch"), os.path.join(d, "patch.diff"), "--", "./check", prop],
+    patch = patch_for(d)
+    p = subprocess.run([os.path.join(ROOT, "tools", "with_patch"), patch, "--", "./check", prop],
                        cwd=ROOT, stdout=subprocess.PIPE, stderr=subprocess.STDOUT, text=True)
-    viol = [l for l in p.stdout.split("\n") if l.startswith("VIOLATION")]
+    lines = p.stdout.split("\n")
+    viol = [l for l in lines if l.startswith("VIOLATION")]
     concrete = [l for l in viol if "no-failing-input-found" not in l]
-    res[name] = {"property": prop, "check_exit": p.returncode, "violations": len(viol), "with_concrete_input": len(concrete),
-                 "caught": p.returncode == 1 and len(viol) > 0, "wall_s": round(time.time() - t0, 1),
-                 "first": (concrete or viol or [""])[0], "detail": [l.strip() for l in p.stdout.split("\n") if l.startswith("  (")][:2]}
-    print(name, res[name]["caught"], res[name]["violations"], res[name]["with_concrete_input"], res[name]["wall_s"])
-    json.dump(res, open(resf, "w"), indent=1)
+    r = {"property": prop, "repo_head": head, "patch": os.path.basename(patch), "check_exit": p.returncode,
+         "violations": len(viol), "with_concrete_input": len(concrete),
+         "caught": p.returncode == 1 and len(viol) > 0, "wall_s": round(time.time() - t0, 1),
+         "first": (concrete or viol or [""])[0],
+         "detail": [l.strip()[:400] for l in lines if l.startswith("  (")][:2],
+         "applies": "patch does not apply" not in p.stdout}
+    json.dump(r, open(os.path.join(d, "result.json"), "w"), indent=1)
+    print(name, "caught" if r["caught"] else ("NOAPPLY" if not r["applies"] else "MISSED"), r["violations"], r["with_concrete_input"], r["wall_s"], flush=True)
+    return name, r
+
+names = [n for n in sorted(os.listdir(SD)) if os.path.isdir(os.path.join(SD, n)) and (not args or any(n.startswith(a) for a in args))]
+with ThreadPoolExecutor(max_workers=jobs) as ex:
+    list(ex.map(run, names))
+agg = {}
+for n in sorted(os.listdir(SD)):
+    rf = os.path.join(SD, n, "result.json")
+    if os.path.exists(rf):
+        agg[n] = json.load(open(rf))
+json.dump(agg, open(os.path.join(SD, "RESULTS.json"), "w"), indent=1)
+print("caught %d / %d run" % (sum(1 for r in agg.values() if r["caught"]), len(agg)))
